@@ -19,6 +19,10 @@ def plan(tier, seed):
             for pc in (perms(n) if n < 3 else [perms(3)[(pat + t) % 6] for t in range(2)]):
                 k += 1
                 qs.append(fullx_query('C16', n, pat, tuple(range(n)), pc, CONFIGS[k % len(CONFIGS)], trans=k % 3, sym=True, nprocs=1 + k % 2))
+    # sparse 5x5 instances with relaxed supernodes (relax 1..3): relax >= 2 on this pattern is known finding F9
+    f9 = (1 << 0) | (1 << 6) | (1 << 7) | (1 << 12) | (1 << 18) | (1 << 22) | (1 << 24)
+    for rl in (1, 2, 3):
+        qs.append(fullx_query('C16', 5, f9, (0, 1, 2, 3, 4), (0, 1, 2, 3, 4), (1, rl, 6, 2, 2), sym=True, tagx='.f9'))
     # ordering side: etree / counts of Pc (A + A^T) Pc^T, symbolic input permutation
     qs += c10plan(tier, seed, pid='C16', sym_only=True)
     # the real pivotL prefers a non-zero diagonal at threshold 0 (u symbolic in [0,1] includes 0)
